@@ -55,6 +55,7 @@ class Ctx:
         self.exhaustive = None
         self.extra = {}
         self.search_mode = False     # True while the extended failing-input search runs
+        self.search_factor = 10      # budget multiplier of the search (bounded by wall-clock, see runner)
         self.max_keep = 25
 
     # --- bookkeeping -----------------------------------------------------------------
@@ -63,7 +64,7 @@ class Ctx:
 
     def n(self, quick, thorough):
         k = thorough if self.thorough() else quick
-        return k * 10 if self.search_mode else k
+        return int(k * self.search_factor) if self.search_mode else k
 
     def count(self, k=1):
         self.evaluations += k
